@@ -59,7 +59,8 @@ Section RemovalSafe.
   Variable tn : str -> str.
   Variable acc : str -> str -> Prop.
   Variables rh wh : fhandle -> str -> nat -> Prop.
-  Hypothesis HLa : api_laws a V V' tn acc rh wh.
+  Variables hid anc : str -> Prop.
+  Hypothesis HLa : api_laws a V V' tn acc rh wh hid anc.
   Hypothesis HCa : api_crash_laws a V.
 
   Variable I : world -> Prop.
@@ -71,7 +72,7 @@ Section RemovalSafe.
     intros HR Hnlp HI.
     pose proof (RInv_snolinkpar V V' s0 s' D w p HR Hnlp) as Hnlp'.
     pose proof HR as (Hq & Hwf & _).
-    destruct (lexists_spec a V V' tn acc rh wh HLa w p Hq Hwf Hnlp') as (w1 & Hrun1 & HV1 & Hsr1).
+    destruct (lexists_spec a V V' tn acc rh wh hid anc HLa w p Hq Hwf Hnlp') as (w1 & Hrun1 & HV1 & Hsr1).
     pose proof (RInv_read V V' s0 s' D w w1 HR Hsr1 HV1) as HR1.
     unfold try_rm. eapply safe_bind_ok; [exact Hrun1 | |].
     - apply lexists_safe; [apply (claw_lstat _ _ HCa) | exact Hq | exact (HI w HR)].
@@ -83,10 +84,11 @@ Section RemovalSafe.
     (forall p, In p l -> p <> s_root /\ snolinkpar s0 p /\ s0 !! p <> None /\ ~ In p D0) ->
     (forall done p todo q n0, l = done ++ p :: todo -> s0 !! q = Some n0 ->
        In p (ancestors q) -> In q (D0 ++ done)) ->
+    (forall p, In p l -> ~ anc p) ->
     (forall done wq, incl done l -> RInv V V' s0 s' (D0 ++ done) wq -> I wq) ->
     safe I (collect_errs (fun p => a_remove a p) l) w.
   Proof.
-    intros HR Hnd Hl Hord HI.
+    intros HR Hnd Hl Hord Hna HI.
     apply (collect_errs_safe I (fun p => a_remove a p) (fun done w' => RInv V V' s0 s' (D0 ++ done) w') l w).
     - intros done p todo w1 El HR1.
       assert (Hin : In p l) by (rewrite El; apply in_or_app; right; left; reflexivity).
@@ -100,9 +102,10 @@ Section RemovalSafe.
         destruct (s0 !! p) as [n0|] eqn:Hs0; [| contradiction Hex; reflexivity].
         apply sonode_eqv_some_r in He. destruct He as (n' & Hn' & _). exists n'. exact Hn'. }
       destruct Hp as (n & Hp). split.
-      + destruct (remove_step a V V' tn acc rh wh HLa s0 s' (D0 ++ done) w1 p n HR1 Hne Hnlp Hp)
+      + destruct (remove_step a V V' tn acc rh wh hid anc HLa s0 s' (D0 ++ done) w1 p n HR1 Hne Hnlp Hp)
           as (w2 & Hrun & HR2).
         * intros q n0 Hq Hanc. exact (Hord done p todo q n0 El Hq Hanc).
+        * exact (Hna p Hin).
         * exists w2. split; [exact Hrun |]. rewrite app_assoc. exact HR2.
       + apply safe_call; [apply (claw_remove _ _ HCa) | exact (proj1 HR1) | exact (HI done w1 Hincl HR1)].
     - rewrite app_nil_r. exact HR.
@@ -113,16 +116,18 @@ Section RemovalSafe.
     (forall p, In p l -> p <> s_root /\ snolinkpar s0 p) ->
     (forall done p todo q n0, l = done ++ p :: todo -> s0 !! q = Some n0 ->
        In p (ancestors q) -> In q (D0 ++ done)) ->
+    (forall p, In p l -> ~ anc p) ->
     (forall D wq, RInv V V' s0 s' D wq -> I wq) ->
     safe I (collect_errs (try_rm a) l) w.
   Proof.
-    intros HR Hl Hord HI.
+    intros HR Hl Hord Hna HI.
     apply (collect_errs_safe I (try_rm a) (fun done w' => RInv V V' s0 s' (D0 ++ done) w') l w).
     - intros done p todo w1 El HR1.
       assert (Hin : In p l) by (rewrite El; apply in_or_app; right; left; reflexivity).
       destruct (Hl p Hin) as (Hne & Hnlp). split.
-      + destruct (try_rm_step a V V' tn acc rh wh HLa s0 s' (D0 ++ done) w1 p HR1 Hne Hnlp) as (w2 & Hrun & HR2).
+      + destruct (try_rm_step a V V' tn acc rh wh hid anc HLa s0 s' (D0 ++ done) w1 p HR1 Hne Hnlp) as (w2 & Hrun & HR2).
         * intros q n0 Hq Hanc. exact (Hord done p todo q n0 El Hq Hanc).
+        * exact (Hna p Hin).
         * exists w2. split; [exact Hrun |]. rewrite app_assoc. exact HR2.
       + apply (try_rm_step_safe s0 s' (D0 ++ done) w1 p HR1 Hnlp). intros wq. apply HI.
     - rewrite app_nil_r. exact HR.
@@ -138,14 +143,16 @@ Section RollbackSafe.
   Variables tnb tnk : str -> str.
   Variables accb acck : str -> str -> Prop.
   Variables rhb rhk whb whk : fhandle -> str -> nat -> Prop.
+  Variables hid anc : str -> Prop.
   Variable B0 : store.
-  Hypothesis HLb : api_laws base Vb Vk tnb accb rhb whb.
-  Hypothesis HLk : api_laws backup Vk Vb tnk acck rhk whk.
+  Hypothesis HLb : api_laws base Vb Vk tnb accb rhb whb hid anc.
+  Hypothesis HLk : api_laws backup Vk Vb tnk acck rhk whk nohid nohid.
   Hypothesis HCb : api_crash_laws base Vb.
   Hypothesis HCk : api_crash_laws backup Vk.
   Hypothesis Hlinks : links_ok tnb tnk accb acck B0.
   Hypothesis Hsmall : all_small B0.
   Hypothesis HwfB : swf B0.
+  Hypothesis Hloc : loc_ok hid anc B0.
 
   Variable w0 : world.
   Hypothesis Hinv : Inv Vb Vk B0 w0.
@@ -213,7 +220,7 @@ Section RollbackSafe.
     safe IA (mfold (classify_f base w0) l (errs, rm, ds, fs, ls)) w.
   Proof.
     induction l as [|p l IH]; intros w errs rm ds fs ls Hq HV HVk; [apply safe_ret |].
-    destruct (classify_step base Vb Vk tnb accb rhb whb B0 HLb w0 Hinv p w errs rm ds fs ls Hq HV)
+    destruct (classify_step base Vb Vk tnb accb rhb whb hid anc B0 HLb w0 Hinv p w errs rm ds fs ls Hq HV)
       as (w1 & Hrun1 & Hq1 & HV1 & HVk1).
     assert (HA : IA w).
     { split; [exact HVk | intros q _; rewrite HV; apply sonode_eqv_refl]. }
@@ -258,8 +265,9 @@ Section RollbackSafe.
         destruct n as [m | m c | m t]; simpl in Hkn; try discriminate Hkn.
         exists m. exact Hp. }
       eapply safe_mono;
-        [| exact (copy_dir_safe base Vb Vk tnb accb rhb whb HLb HCb (fun _ => True) w p fi
-                    Hq Hwf Hdir Hne Hk Hu Hg Hcase I (fun _ => I))].
+        [| exact (copy_dir_safe base Vb Vk tnb accb rhb whb hid anc HLb HCb (fun _ => True) w p fi
+                    Hq Hwf Hdir Hne Hk Hu Hg Hcase I (fun _ => I)
+                    (orig_not_hid hid anc B0 Hloc p n0 Hn0))].
       intros wq Hm. apply (IA_mid w wq p HA); [rewrite Hi; discriminate | exact Hm].
     Qed.
 
@@ -283,12 +291,12 @@ Section RollbackSafe.
       assert (Hwfk : swf (Vk w)) by (rewrite HVk; exact Hwfk0).
       assert (Hpk : Vk w !! p = Some (File m0 c0)) by (rewrite HVk; exact Hnk).
       assert (Hnlpk : snolinkpar (Vk w) p) by (rewrite HVk; exact Hnlpk0).
-      destruct (law_open_file _ _ _ _ _ _ _ HLk w p m0 c0 Hq Hwfk Hnlpk Hpk)
+      destruct (law_open_file _ _ _ _ _ _ _ _ _ HLk w p m0 c0 Hq Hwfk Hnlpk Hpk)
         as (h & (wa & Hopen & HVka & Hsra) & Hrh).
       pose proof (quiet_same_rest Vb w wa Hq Hsra) as Hqa.
       pose proof (Prog_read Vb Vk B0 w0 s1 R w wa HP Hqa (proj1 Hsra) HVka) as HPa.
       assert (Hpka : Vk wa !! p = Some (File m0 c0)) by (rewrite HVka; exact Hpk).
-      destruct (law_hstat _ _ _ _ _ _ _ HLk wa h p 0%nat (File m0 c0) Hqa Hrh Hpka)
+      destruct (law_hstat _ _ _ _ _ _ _ _ _ HLk wa h p 0%nat (File m0 c0) Hqa Hrh Hpka)
         as (fi2 & (wb & Hstat & HVkb & Hsrb) & Him2).
       pose proof (quiet_same_rest Vb wa wb Hqa Hsrb) as Hqb.
       pose proof (Prog_read Vb Vk B0 w0 s1 R wa wb HPa Hqb (proj1 Hsrb) HVkb) as HPb.
@@ -302,8 +310,9 @@ Section RollbackSafe.
         pose proof (prog_kind Vb Vk B0 w0 Hinv s1 Hs1_keep R wb p fi n HPb Hnin Hi Hp) as Hkn. rewrite Hk in Hkn.
         destruct n as [m | m c | m t]; simpl in Hkn; try discriminate Hkn.
         exists m, c. reflexivity. }
-      destruct (copy_file_spec base backup Vb Vk tnb tnk accb acck rhb rhk whb whk HLb HLk
-                  wb p fi h p m0 c0 Hqb Hwfb Hwfkb Hdir Hk Hu Hg Hcase Hrh Hpkb (Hsmall p m0 c0 Hn0))
+      destruct (copy_file_spec base backup Vb Vk tnb tnk accb acck rhb rhk whb whk hid nohid anc nohid HLb HLk
+                  wb p fi h p m0 c0 Hqb Hwfb Hwfkb Hdir Hk Hu Hg Hcase Hrh Hpkb (Hsmall p m0 c0 Hn0)
+                  (orig_not_hid hid anc B0 Hloc p _ Hn0))
         as (wc & m' & Hcp & (Hsrc & Hwfc & Heqvc) & Hpc & Hmeta & Hmt).
       pose proof (quiet_same_rest Vk wb wc Hqb Hsrc) as Hqc.
       (* the states before each call *)
@@ -320,9 +329,9 @@ Section RollbackSafe.
       eapply safe_bind_ok; [reflexivity | apply safe_ret |]. cbv beta iota.
       eapply safe_bind_ok; [exact (try_ok _ wb wc tt Hcp) | |].
       { apply safe_try. eapply safe_mono;
-          [| exact (copy_file_safe base backup Vb Vk tnb tnk accb acck rhb rhk whb whk HLb HLk HCb
+          [| exact (copy_file_safe base backup Vb Vk tnb tnk accb acck rhb rhk whb whk hid nohid anc nohid HLb HLk HCb
                       (fun _ => True) wb p fi h p m0 c0 Hqb Hwfb Hwfkb Hdir Hk Hu Hg Hcase Hrh Hpkb
-                      (Hsmall p m0 c0 Hn0) I (fun _ _ _ => I))].
+                      (Hsmall p m0 c0 Hn0) I (fun _ _ _ => I) (orig_not_hid hid anc B0 Hloc p _ Hn0))].
         intros wq Hm. exact (IA_mid wb wq p HAb Htr Hm). }
       apply safe_bind_silent; [| intros x; apply silent_lift_res].
       apply safe_try. apply safe_call; [apply atomic_hclose | exact Hqc | exact HAc].
@@ -348,14 +357,14 @@ Section RollbackSafe.
       pose proof (swf_lookup_snolinkpar _ _ _ Hwfk0 Hnk) as Hnlpk0.
       assert (Hwfk : swf (Vk w)) by (rewrite HVk; exact Hwfk0).
       assert (Hnlpk : snolinkpar (Vk w) p) by (rewrite HVk; exact Hnlpk0).
-      destruct (lexists_spec backup Vk Vb tnk acck rhk whk HLk w p Hq Hwfk Hnlpk)
+      destruct (lexists_spec backup Vk Vb tnk acck rhk whk nohid nohid HLk w p Hq Hwfk Hnlpk)
         as (wa & Hex1 & HVka & Hsra).
       rewrite HVk, Hnk in Hex1.
       pose proof (quiet_same_rest Vb w wa Hq Hsra) as Hqa.
       pose proof (Prog_read Vb Vk B0 w0 s1 R w wa HP Hqa (proj1 Hsra) HVka) as HPa.
       pose proof (prog_sdirect Vb Vk B0 HwfB w0 Hinv s1 R wa p fi HPa Hi Hanc) as Hdira.
       pose proof HPa as (_ & Hwfa & HVka0 & _ & _).
-      destruct (lexists_spec base Vb Vk tnb accb rhb whb HLb wa p Hqa Hwfa (sdirect_snolinkpar _ _ Hdira))
+      destruct (lexists_spec base Vb Vk tnb accb rhb whb hid anc HLb wa p Hqa Hwfa (sdirect_snolinkpar _ _ Hdira))
         as (wb & Hex2 & HVb & Hsrb).
       pose proof (quiet_same_rest Vk wa wb Hqa Hsrb) as Hqb.
       pose proof (Prog_read Vb Vk B0 w0 s1 R wa wb HPa Hqb HVb (proj1 Hsrb)) as HPb.
@@ -369,7 +378,7 @@ Section RollbackSafe.
       { rewrite <- HVb. destruct (Vb wb !! p) as [n|] eqn:Hp.
         - pose proof (prog_kind Vb Vk B0 w0 Hinv s1 Hs1_keep R wb p fi n HPb Hnin Hi Hp) as Hkn.
           assert (Hnd : node_kind n <> KDir) by (rewrite Hkn, Hk; discriminate).
-          destruct (law_removeall_leaf _ _ _ _ _ _ _ HLb wb p n Hqb Hwfb
+          destruct (law_removeall_leaf _ _ _ _ _ _ _ _ _ HLb wb p n Hqb Hwfb
                       (sdirect_snolinkpar _ _ Hdirb) Hp Hnd Hne)
             as (s2 & (wc & Hrun & HVc & Hsrc) & Hnone & Heqv & Hwfc).
           subst s2. exists wc. split; [exact Hrun |].
@@ -399,9 +408,9 @@ Section RollbackSafe.
       eapply safe_bind_ok; [exact Hrmrun | |].
       { apply safe_if_call; [apply (claw_removeall _ _ HCb) | exact Hqb | exact HAb]. }
       eapply safe_mono;
-        [| exact (copy_symlink_safe base backup Vb Vk tnb tnk accb acck rhb rhk whb whk HLb HLk HCb HCk
+        [| exact (copy_symlink_safe base backup Vb Vk tnb tnk accb acck rhb rhk whb whk hid nohid anc nohid HLb HLk HCb HCk
                     (fun _ => True) wc p fi mk t0 Hqc Hwfc Hwfkc Hnlpkc Hpkc Hdirc Hpc Hk Htne Haccb
-                    I (fun _ => I))].
+                    I (fun _ => I) (orig_not_hid hid anc B0 Hloc p _ Hn0))].
       intros wq Hm. exact (IA_mid wc wq p HAc Htr Hm).
     Qed.
 
@@ -436,7 +445,7 @@ Section RollbackSafe.
         assert (HA1 : IA w1).
         { apply (Prog_IA done w1); [| exact HP1]. intros q Hq. exact (ds_tracked q (Hincl q Hq)). }
         split.
-        + destruct (dir_step base Vb Vk tnb accb rhb whb B0 HLb HwfB w0 Hinv s1 Hs1_keep
+        + destruct (dir_step base Vb Vk tnb accb rhb whb hid anc B0 HLb HwfB Hloc w0 Hinv s1 Hs1_keep
                       done w1 p fi HP1 Hi Hne Hk Hnin Hanc) as (w2 & Hrun & HP2).
           exists w2. split; [exact Hrun | split; [exact HP2 |]].
           intros q Hq. apply in_app_or in Hq. destruct Hq as [Hq | [<- | []]]; [exact (Hincl q Hq) | exact Hin].
@@ -470,7 +479,7 @@ Section RollbackSafe.
         { apply (Prog_IA (lds ++ done) w1); [| exact HP1]. intros q Hq. apply in_app_or in Hq.
           destruct Hq as [Hq | Hq]; [exact (ds_tracked q Hq) | exact (fs_tracked q (Hincl q Hq))]. }
         split.
-        + destruct (file_step base backup Vb Vk tnb tnk accb acck rhb rhk whb whk B0 HLb HLk Hsmall HwfB
+        + destruct (file_step base backup Vb Vk tnb tnk accb acck rhb rhk whb whk hid anc B0 HLb HLk Hsmall HwfB Hloc
                       w0 Hinv s1 Hs1_keep (lds ++ done) w1 p fi HP1 Hi Hne Hk Hnin Hanc) as (w2 & Hrun2 & HP2).
           exists w2. split; [exact Hrun2 | split; [rewrite app_assoc; exact HP2 |]].
           intros q Hq. apply in_app_or in Hq. destruct Hq as [Hq | [<- | []]]; [exact (Hincl q Hq) | exact Hin].
@@ -507,7 +516,7 @@ Section RollbackSafe.
           destruct Hq as [Hq | Hq]; [| exact (ls_tracked q (Hincl q Hq))].
           apply in_app_or in Hq. destruct Hq as [Hq | Hq]; [exact (ds_tracked q Hq) | exact (fs_tracked q Hq)]. }
         split.
-        + destruct (link_step base backup Vb Vk tnb tnk accb acck rhb rhk whb whk B0 HLb HLk Hlinks HwfB
+        + destruct (link_step base backup Vb Vk tnb tnk accb acck rhb rhk whb whk hid anc B0 HLb HLk Hlinks HwfB Hloc
                       w0 Hinv s1 Hs1_keep ((lds ++ lfs) ++ done) w1 p fi HP1 Hi Hne Hk Hnin Hanc)
             as (w2 & Hrun2 & HP2).
           exists w2. split; [exact Hrun2 | split; [rewrite app_assoc; exact HP2 |]].
@@ -523,15 +532,16 @@ Section RollbackSafe.
     pose proof (inv_quiet Vb Vk B0 w0 Hinv) as Hq0.
     pose proof (inv_wf_b Vb Vk B0 w0 Hinv) as Hwfb0.
     pose proof (inv_wf_k Vb Vk B0 w0 Hinv) as Hwfk0.
-    destruct (classify_spec base Vb Vk tnb accb rhb whb B0 HLb w0 Hinv (rkeys w0) w0 [] [] [] [] []
+    destruct (classify_spec base Vb Vk tnb accb rhb whb hid anc B0 HLb w0 Hinv (rkeys w0) w0 [] [] [] [] []
                 Hq0 eq_refl) as (wc & Hcls & Hqc & HVc & HVkc).
     simpl app in Hcls. fold lrm lds lfs lls in Hcls.
     assert (HR0 : RInv Vb Vk (Vb w0) (Vk w0) [] wc).
     { split; [exact Hqc |]. rewrite HVc. split; [exact Hwfb0 |]. split; [exact HVkc |].
       split; [apply store_eqv_except_refl | intros p []]. }
-    destruct (remove_pass base Vb Vk tnb accb rhb whb HLb (Vb w0) (Vk w0) [] (sort_most lrm) wc HR0
+    destruct (remove_pass base Vb Vk tnb accb rhb whb hid anc HLb (Vb w0) (Vk w0) [] (sort_most lrm) wc HR0
                 (isort_nodup most lrm (l_rm_nodup Vb w0)) (rm_elem Vb Vk B0 HwfB w0 Hinv)
-                (rm_order Vb Vk B0 HwfB w0 Hinv)) as (w1 & Hp1 & HR1).
+                (rm_order Vb Vk B0 HwfB w0 Hinv) (rm_not_anc Vb Vk hid anc B0 Hloc w0 Hinv))
+      as (w1 & Hp1 & HR1).
     simpl app in HR1.
     pose proof HR1 as (Hq1 & Hwf1 & HVk1 & Heqv1 & Hnone1).
     assert (Hs1_none : forall p, infos !! p = Some None -> Vb w1 !! p = None).
@@ -545,11 +555,11 @@ Section RollbackSafe.
     { split; [exact Hq1 | split; [exact Hwf1 | split; [exact HVk1 | split]]].
       - intros p [].
       - intros p _. apply sonode_eqv_refl. }
-    destruct (dirs_pass base Vb Vk tnb accb rhb whb B0 HLb HwfB w0 Hinv (Vb w1) Hs1_keep w1 HP1)
+    destruct (dirs_pass base Vb Vk tnb accb rhb whb hid anc B0 HLb HwfB Hloc w0 Hinv (Vb w1) Hs1_keep w1 HP1)
       as (w2 & Hp2 & HP2).
-    destruct (files_pass base backup Vb Vk tnb tnk accb acck rhb rhk whb whk B0 HLb HLk Hsmall HwfB
+    destruct (files_pass base backup Vb Vk tnb tnk accb acck rhb rhk whb whk hid anc B0 HLb HLk Hsmall HwfB Hloc
                 w0 Hinv (Vb w1) Hs1_keep w2 HP2) as (w3 & Hp3 & HP3).
-    destruct (links_pass base backup Vb Vk tnb tnk accb acck rhb rhk whb whk B0 HLb HLk Hlinks HwfB
+    destruct (links_pass base backup Vb Vk tnb tnk accb acck rhb rhk whb whk hid anc B0 HLb HLk Hlinks HwfB Hloc
                 w0 Hinv (Vb w1) Hs1_keep w3 HP3) as (w4 & Hp4 & HP4).
     pose proof (prog_final Vb Vk B0 w0 Hinv (Vb w1) Hs1_none Hs1_keep w4 HP4) as Hfinal.
     pose proof HP4 as (Hq4 & Hwf4 & HVk4 & _ & _).
@@ -558,18 +568,21 @@ Section RollbackSafe.
       split; [apply store_eqv_except_refl | intros p []]. }
     assert (HneL : KLink <> KDir) by discriminate.
     assert (HneF : KFile <> KDir) by discriminate.
-    destruct (try_rm_pass backup Vk Vb tnk acck rhk whk HLk (Vk w0) (Vb w4) [] (sort_most lls) w4 HRk0
-                (bk_elem Vb Vk B0 w0 Hinv KLink) (bk_leaf_order Vb Vk B0 w0 Hinv KLink [] HneL))
+    destruct (try_rm_pass backup Vk Vb tnk acck rhk whk nohid nohid HLk (Vk w0) (Vb w4) [] (sort_most lls) w4 HRk0
+                (bk_elem Vb Vk B0 w0 Hinv KLink) (bk_leaf_order Vb Vk B0 w0 Hinv KLink [] HneL)
+                (fun p _ => not_nohid p))
       as (w5 & Hp5 & HR5).
     apply (RInv_ext Vk Vb (Vk w0) (Vb w4) _ lls) in HR5;
       [| intros x; simpl; apply isort_in].
-    destruct (try_rm_pass backup Vk Vb tnk acck rhk whk HLk (Vk w0) (Vb w4) lls (sort_most lfs) w5 HR5
-                (bk_elem Vb Vk B0 w0 Hinv KFile) (bk_leaf_order Vb Vk B0 w0 Hinv KFile lls HneF))
+    destruct (try_rm_pass backup Vk Vb tnk acck rhk whk nohid nohid HLk (Vk w0) (Vb w4) lls (sort_most lfs) w5 HR5
+                (bk_elem Vb Vk B0 w0 Hinv KFile) (bk_leaf_order Vb Vk B0 w0 Hinv KFile lls HneF)
+                (fun p _ => not_nohid p))
       as (w6 & Hp6 & HR6).
     apply (RInv_ext Vk Vb (Vk w0) (Vb w4) _ (lls ++ lfs)) in HR6;
       [| intros x; rewrite !in_app_iff; unfold sort_most; rewrite isort_in; reflexivity].
-    destruct (try_rm_pass backup Vk Vb tnk acck rhk whk HLk (Vk w0) (Vb w4) (lls ++ lfs)
-                (sort_most lds) w6 HR6 (bk_elem Vb Vk B0 w0 Hinv KDir) (bk_dir_order Vb Vk B0 w0 Hinv))
+    destruct (try_rm_pass backup Vk Vb tnk acck rhk whk nohid nohid HLk (Vk w0) (Vb w4) (lls ++ lfs)
+                (sort_most lds) w6 HR6 (bk_elem Vb Vk B0 w0 Hinv KDir) (bk_dir_order Vb Vk B0 w0 Hinv)
+                (fun p _ => not_nohid p))
       as (w7 & Hp7 & HR7).
     (* the states inside the passes *)
     assert (HIB : forall D wq, RInv Vk Vb (Vk w0) (Vb w4) D wq -> recov wq).
@@ -588,9 +601,9 @@ Section RollbackSafe.
       exact (classify_safe (rkeys w0) w0 [] [] [] [] [] Hq0 eq_refl eq_refl). }
     cbv beta iota zeta.
     eapply safe_bind_ok; [exact Hp1 | |].
-    { exact (remove_pass_safe base Vb Vk tnb accb rhb whb HLb HCb recov (Vb w0) (Vk w0) [] (sort_most lrm) wc HR0
+    { exact (remove_pass_safe base Vb Vk tnb accb rhb whb hid anc HLb HCb recov (Vb w0) (Vk w0) [] (sort_most lrm) wc HR0
                (isort_nodup most lrm (l_rm_nodup Vb w0)) (rm_elem Vb Vk B0 HwfB w0 Hinv)
-               (rm_order Vb Vk B0 HwfB w0 Hinv) HIA1). }
+               (rm_order Vb Vk B0 HwfB w0 Hinv) (rm_not_anc Vb Vk hid anc B0 Hloc w0 Hinv) HIA1). }
     cbv beta iota zeta.
     eapply safe_bind_ok; [exact Hp2 | |].
     { eapply safe_mono; [exact recA | exact (dirs_pass_safe (Vb w1) Hs1_keep w1 HP1)]. }
@@ -603,16 +616,19 @@ Section RollbackSafe.
     cbv beta iota zeta.
     unfold try_remove_backup_paths.
     eapply safe_bind_ok; [exact Hp5 | |].
-    { exact (try_rm_pass_safe backup Vk Vb tnk acck rhk whk HLk HCk recov (Vk w0) (Vb w4) [] (sort_most lls) w4 HRk0
-               (bk_elem Vb Vk B0 w0 Hinv KLink) (bk_leaf_order Vb Vk B0 w0 Hinv KLink [] HneL) HIB). }
+    { exact (try_rm_pass_safe backup Vk Vb tnk acck rhk whk nohid nohid HLk HCk recov (Vk w0) (Vb w4) [] (sort_most lls) w4 HRk0
+               (bk_elem Vb Vk B0 w0 Hinv KLink) (bk_leaf_order Vb Vk B0 w0 Hinv KLink [] HneL)
+               (fun p _ => not_nohid p) HIB). }
     cbv beta iota zeta.
     eapply safe_bind_ok; [exact Hp6 | |].
-    { exact (try_rm_pass_safe backup Vk Vb tnk acck rhk whk HLk HCk recov (Vk w0) (Vb w4) lls (sort_most lfs) w5 HR5
-               (bk_elem Vb Vk B0 w0 Hinv KFile) (bk_leaf_order Vb Vk B0 w0 Hinv KFile lls HneF) HIB). }
+    { exact (try_rm_pass_safe backup Vk Vb tnk acck rhk whk nohid nohid HLk HCk recov (Vk w0) (Vb w4) lls (sort_most lfs) w5 HR5
+               (bk_elem Vb Vk B0 w0 Hinv KFile) (bk_leaf_order Vb Vk B0 w0 Hinv KFile lls HneF)
+               (fun p _ => not_nohid p) HIB). }
     cbv beta iota zeta.
     eapply safe_bind_ok; [exact Hp7 | |].
-    { exact (try_rm_pass_safe backup Vk Vb tnk acck rhk whk HLk HCk recov (Vk w0) (Vb w4) (lls ++ lfs)
-               (sort_most lds) w6 HR6 (bk_elem Vb Vk B0 w0 Hinv KDir) (bk_dir_order Vb Vk B0 w0 Hinv) HIB). }
+    { exact (try_rm_pass_safe backup Vk Vb tnk acck rhk whk nohid nohid HLk HCk recov (Vk w0) (Vb w4) (lls ++ lfs)
+               (sort_most lds) w6 HR6 (bk_elem Vb Vk B0 w0 Hinv KDir) (bk_dir_order Vb Vk B0 w0 Hinv)
+               (fun p _ => not_nohid p) HIB). }
     cbv beta iota zeta.
     apply safe_bind_silent; [apply silent_safe; apply silent_put_infos |].
     intros x. apply silent_ret.
@@ -623,17 +639,17 @@ End RollbackSafe.
 (** * The theorems, as stated in Spec/Always.v *)
 
 Theorem rollback_always :
-  forall base backup Vb Vk tnb tnk accb acck rhb rhk whb whk B0,
-  rollback_always_stmt base backup Vb Vk tnb tnk accb acck rhb rhk whb whk B0.
+  forall base backup Vb Vk tnb tnk accb acck rhb rhk whb whk hid anc B0,
+  rollback_always_stmt base backup Vb Vk tnb tnk accb acck rhb rhk whb whk hid anc B0.
 Proof.
-  intros base backup Vb Vk tnb tnk accb acck rhb rhk whb whk B0.
-  unfold rollback_always_stmt. cbv zeta. intros HLb HLk HCb HCk Hlinks Hsmall HwfB w HI.
+  intros base backup Vb Vk tnb tnk accb acck rhb rhk whb whk hid anc B0.
+  unfold rollback_always_stmt. cbv zeta. intros HLb HLk HCb HCk Hlinks Hsmall HwfB Hloc w HI.
   apply (safe_always (recoverable Vb Vk B0) (recoverable Vb Vk B0) _ w
-           (rollback_safe base backup Vb Vk tnb tnk accb acck rhb rhk whb whk B0
-              HLb HLk HCb HCk Hlinks Hsmall HwfB w HI)).
+           (rollback_safe base backup Vb Vk tnb tnk accb acck rhb rhk whb whk hid anc B0
+              HLb HLk HCb HCk Hlinks Hsmall HwfB Hloc w HI)).
   - intros w1 E.
-    destruct (rollback_spec base backup Vb Vk tnb tnk accb acck rhb rhk whb whk B0
-                HLb HLk Hlinks Hsmall HwfB w HI) as (w' & Hrun & _).
+    destruct (rollback_spec base backup Vb Vk tnb tnk accb acck rhb rhk whb whk hid anc B0
+                HLb HLk Hlinks Hsmall HwfB Hloc w HI) as (w' & Hrun & _).
     rewrite Hrun in E. discriminate E.
   - intros x Hx. exact (proj1 (recoverable_set_crash base backup Vb Vk B0 HCb HCk x None) Hx).
 Qed.
@@ -641,15 +657,16 @@ Qed.
 (** a history of covered operations followed by Rollback, started with a
     crash point: wherever it stops *)
 Theorem run_rollback_always :
-  forall base backup Vb Vk tnb tnk accb acck rhb rhk whb whk B0,
-  run_rollback_always_stmt base backup Vb Vk tnb tnk accb acck rhb rhk whb whk B0.
+  forall base backup Vb Vk tnb tnk accb acck rhb rhk whb whk hid anc B0,
+  run_rollback_always_stmt base backup Vb Vk tnb tnk accb acck rhb rhk whb whk hid anc B0.
 Proof.
-  intros base backup Vb Vk tnb tnk accb acck rhb rhk whb whk B0.
+  intros base backup Vb Vk tnb tnk accb acck rhb rhk whb whk hid anc B0.
   unfold run_rollback_always_stmt. cbv zeta.
   intros HLb HLb2 HLk HCb HCk Hsmall w0 ops w Hinit Hrun k outs wh Hk.
   pose proof Hinit as (_ & _ & _ & HwfB & Hlinks & _ & _).
   pose proof (initial_inv_spec Vb Vk tnb tnk accb acck B0 w0 Hinit) as HI0.
-  pose proof (good_run_inv base backup Vb Vk tnb tnk accb acck rhb rhk whb whk B0
+  pose proof (initial_loc_ok base Vb Vk tnb tnk accb acck rhb whb hid anc B0 HLb w0 Hinit) as Hloc.
+  pose proof (good_run_inv base backup Vb Vk tnb tnk accb acck rhb rhk whb whk hid anc B0
                 HLb HLb2 HLk Hlinks Hsmall HwfB w0 ops w Hrun HI0) as HI.
   (* the run of [ops ++ [ORollback]] is the run of [ops], then Rollback *)
   assert (Happ : forall l wa, run_ops base backup (l ++ [ORollback]) wa =
@@ -671,7 +688,7 @@ Proof.
       + reflexivity. }
   rewrite Happ in Hk.
   destruct (run_ops base backup ops (set_crash w0 (Some k))) as [xs wb] eqn:Hxs.
-  destruct (good_run_always base backup Vb Vk tnb tnk accb acck rhb rhk whb whk B0
+  destruct (good_run_always base backup Vb Vk tnb tnk accb acck rhb rhk whb whk hid anc B0
               HLb HLb2 HLk HCb HCk Hlinks Hsmall HwfB w0 ops w Hrun HI0 k xs wb Hxs) as [Hrec Hend].
   destruct (existsb (fun x => match x with MHalt => true | _ => false end) xs) eqn:Eh.
   - injection Hk as _ <-. exact Hrec.
@@ -682,12 +699,12 @@ Proof.
     specialize (Hend Hnh). subst wb.
     assert (Hstep : step base backup ORollback = (b_rollback base backup ;;; ret ObUnit)) by reflexivity.
     rewrite Hstep in Hk.
-    destruct (rollback_spec base backup Vb Vk tnb tnk accb acck rhb rhk whb whk B0
-                HLb HLk Hlinks Hsmall HwfB w HI) as (w' & Hrb & Hq' & Hb' & Hk' & Hi').
+    destruct (rollback_spec base backup Vb Vk tnb tnk accb acck rhb rhk whb whk hid anc B0
+                HLb HLk Hlinks Hsmall HwfB Hloc w HI) as (w' & Hrb & Hq' & Hb' & Hk' & Hi').
     assert (Hs : safe (recoverable Vb Vk B0) (b_rollback base backup ;;; ret ObUnit) w).
     { apply safe_bind_silent; [| intros x; apply silent_ret].
-      exact (rollback_safe base backup Vb Vk tnb tnk accb acck rhb rhk whb whk B0
-               HLb HLk HCb HCk Hlinks Hsmall HwfB w HI). }
+      exact (rollback_safe base backup Vb Vk tnb tnk accb acck rhb rhk whb whk hid anc B0
+               HLb HLk HCb HCk Hlinks Hsmall HwfB Hloc w HI). }
     destruct ((b_rollback base backup ;;; ret ObUnit) (set_crash w (Some k))) as [rk wk] eqn:Hrk.
     destruct (Hs k rk wk Hrk) as [[-> Hr] | (w1 & Hq1 & ->)].
     + injection Hk as _ <-.
